@@ -45,9 +45,9 @@ struct CoutCapture {
 // ================================================================================================
 // C17: shot programs
 // ================================================================================================
-enum SegKind { S_LOCAL = 0, S_LOOP, S_HELPER, S_ARRAY, S_OBJ1, S_OBJ2, S_BLOCK, S_ECHO, S_UNTRACKED, S_COUNT };
+enum SegKind { S_LOCAL = 0, S_LOOP, S_HELPER, S_ARRAY, S_OBJ1, S_OBJ2, S_BLOCK, S_ECHO, S_UNTRACKED, S_CYCLE_OWNER, S_COUNT };
 const char* segName(int k) {
-    static const char* n[] = {"tracked_local", "tracked_in_loop", "tracked_in_helper", "tracked_array", "object_tracked_field", "object_tracked_array_field", "tracked_in_block", "echo", "untracked_qubit"};
+    static const char* n[] = {"tracked_local", "tracked_in_loop", "tracked_in_helper", "tracked_array", "object_tracked_field", "object_tracked_array_field", "tracked_in_block", "echo", "untracked_qubit", "tracked_owner_held_by_garbage_cycle"};
     return k >= 0 && k < S_COUNT ? n[k] : "?";
 }
 struct Seg {
@@ -100,6 +100,7 @@ std::string prepCode(int prep, const std::string& e) {
 std::string renderShot(const ShotPlan& p) {
     std::string s;
     s += "class T1 {\n    @tracked public qubit q;\n    public constructor() -> T1 = default;\n    public function ms() -> void { measure this.q; }\n}\n";
+    s += "class CN {\n    public CN next;\n    public T1 t;\n    public constructor() -> CN { this.next = null; this.t = new T1(); return this; }\n}\n";
     s += "class T2 {\n    @tracked public qubit[2] qs;\n    public constructor() -> T2 = default;\n    public function ms() -> void { measure this.qs; }\n}\n";
     std::string body;
     for (size_t i = 0; i < p.segs.size(); ++i) {
@@ -152,6 +153,15 @@ std::string renderShot(const ShotPlan& p) {
                 }
                 break;
             case S_ECHO: body += "    echo(\"e" + id + "\");\n"; break;
+            case S_CYCLE_OWNER:
+                // two nodes in a reference cycle each own a T1; the cycle is dropped, so the owners die when the
+                // collector reclaims it (at the latest in the collection that ends the run). meas==1: the first
+                // owner's qubit is measured; viaDestroy: a collection is requested while the cycle is still
+                // reachable (after the last allocation of the helper).
+                s += "function mkc" + id + "() -> void { T1 tmp = new T1(); CN ca = new CN(); CN cb = new CN(); ca.next = cb; cb.next = ca; " + prepCode(g.prep, "ca.t.q") + (g.meas >= 1 ? "ca.t.ms(); " : "") +
+                     (g.viaDestroy ? "destroy tmp; int zz = 1; " : "tmp = null; ") + "}\n";
+                for (int r = 0; r < g.reps; ++r) body += "    mkc" + id + "();\n";
+                break;
         }
     }
     if (p.annShots > 0) s += "@shots(" + std::to_string(p.annShots) + ")\n";
@@ -171,9 +181,17 @@ ShotPlan genShot(sim::Rng& g) {
         s.reps = 1;
         if (s.kind == S_LOOP || s.kind == S_HELPER) s.reps = g.range(1, 3);
         if (s.kind == S_OBJ1 || s.kind == S_OBJ2) { s.reps = g.range(1, 3); s.viaDestroy = g.chance(0.4); if (s.meas > 2) s.meas = 1; }
+        if (s.kind == S_CYCLE_OWNER) {
+            s.reps = g.range(1, 2);
+            s.viaDestroy = g.chance(0.6);
+            if (s.meas > 1) s.meas = 1;
+            // an unmeasured superposed qubit would make the owner's death draw a reset branch at collection
+            // time, i.e. at a schedule-dependent point between scripted measure statements
+            if (s.meas == 0 && s.prep >= 2) s.prep = s.prep - 2;
+        }
         if (s.kind == S_ARRAY || s.kind == S_OBJ2) { if (g.chance(0.3)) s.prep = 4; }
         if (s.kind == S_OBJ2 && s.meas == 3) s.meas = 1;
-        int need = (s.kind == S_ARRAY ? 2 : (s.kind == S_OBJ1 || s.kind == S_OBJ2) ? 2 : s.kind == S_ECHO ? 0 : 1) * ((s.kind == S_LOOP || s.kind == S_HELPER) ? s.reps : 1);
+        int need = (s.kind == S_ARRAY ? 2 : (s.kind == S_OBJ1 || s.kind == S_OBJ2) ? 2 : s.kind == S_CYCLE_OWNER ? 3 : s.kind == S_ECHO ? 0 : 1) * ((s.kind == S_LOOP || s.kind == S_HELPER) ? s.reps : 1);
         if (qubits + need > 9) continue;
         qubits += need;
         p.segs.push_back(s);
@@ -262,6 +280,15 @@ void modelShot(const ShotPlan& p, int shot, Table& tab, std::vector<std::string>
                 }
                 break;
             case S_ECHO: echoes.push_back("e" + id); break;
+            case S_CYCLE_OWNER:
+                for (int r = 0; r < g.reps; ++r) {
+                    std::string out = "?";
+                    if (g.meas >= 1) out = std::to_string(measureOne(g.prep, -1));
+                    tab["T1.q"]["?"]++;   // tmp: never measured
+                    tab["T1.q"][out]++;   // ca.t
+                    tab["T1.q"]["?"]++;   // cb.t: never measured
+                }
+                break;
         }
     }
 }
@@ -648,7 +675,19 @@ std::string isoProgram(int mask) {
     return s;
 }
 
+// Programs the pinned analyser rejects but a more permissive one might accept (array sizes that are
+// final but not compile-time constants). If the front end rejects them the run is skipped and counted;
+// if it accepts them, the isolation oracle applies to them like to any other program.
+std::string speculativeProgram(int v) {
+    switch (v % 3) {
+        case 0: return "function main() -> void {\n    qubit q;\n    h(q);\n    bit b = measure q;\n    final int n = 1 + (int) b;\n    int[n] slots;\n    echo(b);\n    echo(slots);\n}\n";
+        case 1: return "function pick(int k) -> int { return k + 1; }\nfunction main() -> void {\n    qubit q;\n    h(q);\n    bit b = measure q;\n    final int n = pick((int) b);\n    float[n] fs;\n    echo(fs);\n}\n";
+        default: return "class C { public static int c = 0; public constructor() -> C = default; }\nfunction main() -> void {\n    qubit q;\n    h(q);\n    bit b = measure q;\n    C.c = C.c + 1 + (int) b;\n    final int n = C.c;\n    bit[n] bs;\n    echo(bs);\n}\n";
+    }
+}
+
 std::string isoSource(const IsoPlan& p) {
+    if (p.family == 3) return speculativeProgram(p.variantMask);
     if (p.family == 0) return classprog::render(p.cp);
     if (p.family == 1) return qh::render(p.qp, true).source;
     return isoProgram(p.variantMask);
@@ -680,43 +719,118 @@ struct IsoStats {
     uint64_t executions = 0, words = 0, errors = 0;
 };
 
+// ExecResult <-> JSON (results travel from forked children to the pristine worker over a pipe)
+Json execJson(const ExecResult& r, uint64_t words) {
+    sim::Hash h;
+    for (auto& v : r.state) { h.addDouble(v.real(), 1e-15); h.addDouble(v.imag(), 1e-15); }
+    Json e = Json::array();
+    for (auto& l : r.echoes) e.push(l);
+    return Json::object().set("status", r.status).set("message", r.message).set("echoes", e).set("out", r.out).set("err", r.err).set("tracked", r.tracked).set("qasm", r.qasm).set("qubits", r.qubits)
+        .set("state_hash", sim::hex64(h.h)).set("state_size", Json((unsigned long long)r.state.size())).set("yields", Json((unsigned long long)r.yields)).set("words", Json((unsigned long long)words));
+}
+struct ExecView {
+    ExecResult r;
+    std::string stateHash;
+    uint64_t words = 0;
+    bool reject = false;
+    std::string rejectMsg, special;
+};
+ExecView viewFrom(const Json& j) {
+    ExecView v;
+    if (j.has("reject")) { v.reject = true; v.rejectMsg = j.at("reject").asStr(); return v; }
+    if (j.has("special")) { v.special = j.at("special").asStr(); v.rejectMsg = j.at("detail").asStr(); return v; }
+    v.r.status = (int)j.at("status").asInt();
+    v.r.message = j.at("message").asStr();
+    for (auto& l : j.at("echoes").a) v.r.echoes.push_back(l.asStr());
+    v.r.out = j.at("out").asStr();
+    v.r.err = j.at("err").asStr();
+    v.r.tracked = j.at("tracked").asStr();
+    v.r.qasm = j.at("qasm").asStr();
+    v.r.qubits = (int)j.at("qubits").asInt();
+    v.r.yields = j.at("yields").asU64();
+    v.stateHash = j.at("state_hash").asStr() + "/" + std::to_string(j.at("state_size").asU64());
+    v.words = j.at("words").asU64();
+    return v;
+}
+
+// Isolation check. The worker itself never executes Bloch code, so it stays a pristine process image:
+// side A (K executions of one analysed tree) runs in one forked child, and each fresh
+// parse-analyse-run of side B runs in a forked child of its own. State that leaks through anything that
+// outlives an evaluator - the shared tree, or process-wide statics - therefore shows up as a difference,
+// and re-evaluating a plan (shrinking, determinism gate) starts from the same pristine image.
 Verdict isoCheck(const IsoPlan& p, IsoStats& st) {
     std::string src = isoSource(p);
-    std::string err;
-    auto shared = parseOnly(src, err);
-    if (!shared) return {"harness_rejected", err};
-    try {
-        compiler::SemanticAnalyser an;
-        an.analyse(*shared);
-    } catch (const std::exception& e) {
-        return {"harness_rejected", e.what()};
-    }
-    for (int k = 0; k < p.K; ++k) {
-        uint64_t ws = p.wordSeed + 1000003ull * (uint64_t)k, ss = p.schedSeed + 7919ull * (uint64_t)k;
-        bool log = p.collectLogLastOnly ? (k == p.K - 1) : true;
-        if (p.reanalyse && k > 0) {
-            try {
-                compiler::SemanticAnalyser an;
-                an.analyse(*shared);
-            } catch (const std::exception& e) {
-                return {"reanalysis_of_executed_program_fails", std::string("analysing the same tree again before execution ") + std::to_string(k) + " failed: " + e.what()};
-            }
-        }
-        ExecResult a = execOn(*shared, ws, ss, log);
-        st.words += g_rng.wordsDrawn;
-        std::string e2;
-        auto fresh = parseOnly(src, e2);
-        if (!fresh) return {"harness_rejected", e2};
+    auto seedsFor = [&](int k, uint64_t& ws, uint64_t& ss, bool& log) {
+        ws = p.wordSeed + 1000003ull * (uint64_t)k;
+        ss = p.schedSeed + 7919ull * (uint64_t)k;
+        log = p.collectLogLastOnly ? (k == p.K - 1) : true;
+    };
+    sim::ChildResult ca = sim::runInChild([&]() -> std::string {
+        Json arr = Json::array();
+        std::string err;
+        auto shared = parseOnly(src, err);
+        if (!shared) return Json::array().push(Json::object().set("reject", err)).dump();
         try {
             compiler::SemanticAnalyser an;
-            an.analyse(*fresh);
+            an.analyse(*shared);
         } catch (const std::exception& e) {
-            return {"harness_rejected", e.what()};
+            return Json::array().push(Json::object().set("reject", std::string(e.what()))).dump();
         }
-        ExecResult b = execOn(*fresh, ws, ss, log);
+        for (int k = 0; k < p.K; ++k) {
+            uint64_t ws, ss;
+            bool log;
+            seedsFor(k, ws, ss, log);
+            if (p.reanalyse && k > 0) {
+                try {
+                    compiler::SemanticAnalyser an;
+                    an.analyse(*shared);
+                } catch (const std::exception& e) {
+                    arr.push(Json::object().set("special", "reanalysis_of_executed_program_fails").set("detail", std::string("analysing the same tree again before execution ") + std::to_string(k) + " failed: " + e.what()));
+                    return arr.dump();
+                }
+            }
+            ExecResult a = execOn(*shared, ws, ss, log);
+            arr.push(execJson(a, g_rng.wordsDrawn));
+        }
+        return arr.dump();
+    });
+    Json ja;
+    if (!ca.exitedOk() || !Json::parse(ca.out, ja) || ja.t != Json::Arr) return {"repeated_execution_crashes", "the child running " + std::to_string(p.K) + " executions of one analysed tree ended with " + ca.describe() + ": " + sim::classifyCrash(ca.status, ca.err)};
+    if (!ja.a.empty() && ja.a[0].has("reject")) return {"harness_rejected", ja.a[0].at("reject").asStr()};
+    for (int k = 0; k < p.K; ++k) {
+        if ((size_t)k >= ja.a.size()) return {"harness_short_result", "side A returned fewer results than executions"};
+        ExecView a = viewFrom(ja.a[(size_t)k]);
+        if (!a.special.empty()) return {a.special, a.rejectMsg};
+        uint64_t ws, ss;
+        bool log;
+        seedsFor(k, ws, ss, log);
+        sim::ChildResult cb = sim::runInChild([&]() -> std::string {
+            std::string e2;
+            auto fresh = parseOnly(src, e2);
+            if (!fresh) return Json::object().set("reject", e2).dump();
+            try {
+                compiler::SemanticAnalyser an;
+                an.analyse(*fresh);
+            } catch (const std::exception& e) {
+                return Json::object().set("reject", std::string(e.what())).dump();
+            }
+            ExecResult b = execOn(*fresh, ws, ss, log);
+            return execJson(b, g_rng.wordsDrawn).dump();
+        });
+        Json jb;
+        if (!cb.exitedOk() || !Json::parse(cb.out, jb)) return {"harness_fresh_run_crashed", "fresh run " + std::to_string(k) + " ended with " + cb.describe()};
+        ExecView b = viewFrom(jb);
+        if (b.reject) return {"harness_rejected", b.rejectMsg};
         st.executions += 2;
-        if (a.status != 0) ++st.errors;
-        if (!(a == b)) return {"execution_differs_from_fresh_run", "execution " + std::to_string(k) + " of " + std::to_string(p.K) + " on the shared tree vs a fresh parse-analyse-run with the same draws and schedule: " + a.diff(b)};
+        st.words += a.words;
+        if (a.r.status != 0) ++st.errors;
+        a.r.state.clear();
+        b.r.state.clear();
+        if (!(a.r == b.r) || a.stateHash != b.stateHash) {
+            std::string d = a.r.diff(b.r);
+            if (d.empty()) d = "final simulator state differs";
+            return {"execution_differs_from_fresh_run", "execution " + std::to_string(k) + " of " + std::to_string(p.K) + " on the shared tree vs a fresh parse-analyse-run (fresh process image) with the same draws and schedule: " + d};
+        }
     }
     return {};
 }
@@ -725,6 +839,7 @@ IsoPlan genIso(uint64_t seed, uint64_t run) {
     sim::Rng g(seed, "gen", run), knob(seed, "knob", run);
     IsoPlan p;
     p.family = (int)knob.below(3);
+    if (knob.chance(0.04)) p.family = 3;
     static const int ks[] = {2, 3, 5};
     p.K = ks[knob.below(3)];
     p.reanalyse = knob.chance(0.3);
@@ -742,7 +857,8 @@ IsoPlan genIso(uint64_t seed, uint64_t run) {
         go.boundaryDrawProb = 0;
         go.guardViolationProb = knob.chance(0.2) ? 0.1 : 0.0;
         p.qp = qh::generate(g, go);
-    } else p.variantMask = 1 + (int)knob.below(63);
+    } else if (p.family == 3) { p.variantMask = (int)knob.below(3); p.K = 5; }
+    else p.variantMask = 1 + (int)knob.below(63);
     return p;
 }
 
@@ -768,7 +884,8 @@ void runOne(const sim::Options& opt, uint64_t run, sim::RunReport& rep) {
         for (auto& s : p.segs) {
             rep.count(std::string("seg.") + segName(s.kind));
             if ((s.kind == S_LOOP || s.kind == S_HELPER) && s.reps > 1) rep.count("c17.multi_exit_scopes");
-            if (s.kind == S_OBJ1 || s.kind == S_OBJ2) rep.count("c17.object_owned_tracked_fields");
+            if (s.kind == S_OBJ1 || s.kind == S_OBJ2 || s.kind == S_CYCLE_OWNER) rep.count("c17.object_owned_tracked_fields");
+            if (s.kind == S_CYCLE_OWNER) rep.count("c17.owners_held_by_garbage_cycle");
         }
         static const char* em[] = {"echo.absent", "echo.auto", "echo.all", "echo.none"};
         rep.count(em[p.echoMode]);
@@ -826,11 +943,12 @@ void runOne(const sim::Options& opt, uint64_t run, sim::RunReport& rep) {
     IsoPlan p = genIso(opt.seed, run);
     IsoStats st;
     Verdict v = isoCheck(p, st);
+    if (v.cls == "harness_rejected" && p.family == 3) { rep.count("c18.speculative_program_rejected_by_front_end"); return; }
     if (v.cls == "harness_rejected") { rep.count("harness.rejected_program"); fprintf(stderr, "rejected (run %llu): %s\n", (unsigned long long)run, v.detail.c_str()); return; }
     rep.count("c18.executions", st.executions);
     rep.count("c18.words_drawn", st.words);
     rep.count("c18.executions_ending_in_runtime_error", st.errors);
-    rep.count(p.family == 0 ? "c18.family_class_program" : p.family == 1 ? "c18.family_quantum_history" : "c18.family_isolation_program");
+    rep.count(p.family == 0 ? "c18.family_class_program" : p.family == 1 ? "c18.family_quantum_history" : p.family == 2 ? "c18.family_isolation_program" : "c18.family_speculative_accepted");
     if (p.reanalyse) rep.count("c18.reanalysed_between_executions");
     if (p.collectLogLastOnly) rep.count("c18.qasm_log_only_on_last_execution");
     sim::Hash h;
@@ -912,7 +1030,8 @@ int main(int argc, char** argv) {
         return rc;
     }
     bool thorough = opt.tier == "thorough";
-    uint64_t nRuns = opt.property == "C17" ? (thorough ? 600000 : 20000) : (thorough ? 400000 : 12000);
+    uint64_t nRuns = opt.property == "C17" ? (thorough ? 600000 : 20000) : (thorough ? 150000 : 6000);
+    if (opt.property == "C18" && opt.workers > 8) opt.workers = 8;  // fork-heavy: 8 workers is the knee
     double cap = thorough ? 480 : 45;
     if (opt.runs > 0) nRuns = (uint64_t)opt.runs;
     if (opt.wallCap > 0) cap = opt.wallCap;
